@@ -7,6 +7,7 @@ use std::sync::Once;
 pub mod field;
 #[cfg(curve25519_dalek_verif)]
 pub mod consts;
+pub mod eddsa;
 pub mod edwards;
 pub mod helpers;
 pub mod montgomery;
@@ -63,6 +64,9 @@ fn dispatch(req: &Req) -> Out {
     }
     if op.starts_with("mt.") || op.starts_with("x.") {
         return montgomery::exec(op, a);
+    }
+    if op.starts_with("sig.") {
+        return eddsa::exec(op, a);
     }
     if op.starts_with("kp.") {
         return public_consts::exec(op, a);
